@@ -348,6 +348,21 @@ func (e *FnExec) doReturn(st *State, r *ssa.Return) {
 	}
 	for _, c := range e.con.Ensures {
 		g, err := env.boolExpr(c)
+		if err != nil && strings.Contains(err.Error(), "unknown identifier") && strings.Contains(err.Error(), "scope=true") {
+			// a local variable that is not declared yet at this return: the clause says nothing
+			// here; it must be expressible at some other return (checked when the unit is done)
+			if e.ensSkipped == nil {
+				e.ensSkipped = map[*Clause]string{}
+			}
+			e.ensSkipped[c] = err.Error()
+			continue
+		}
+		if err == nil {
+			if e.ensOK == nil {
+				e.ensOK = map[*Clause]bool{}
+			}
+			e.ensOK[c] = true
+		}
 		if err != nil {
 			if strings.Contains(err.Error(), "no such contracted call") {
 				// the clause speaks about a call the function does not make (any more): it cannot hold
